@@ -438,7 +438,14 @@ def run_files(ctx, faults=False):
     ctx.sample = case
     ctx.log("case", fspecs, switch, nthreads, fault_rate)
     with iosim.installed(pb, io):
-        readers = [files.open_reader(pb, rs) for rs in rss]
+        readers = []
+        for rs in rss:
+            try:
+                readers.append(files.open_reader(pb, rs))
+            except Exception as e:
+                ctx.violate("unexpected-exception", f"{rs['cls']}.__init__:raises",
+                            f"constructing the reader for a valid file with documented arguments "
+                            f"{ {k: v for k, v in rs.items() if k != 'name'} } raised {type(e).__name__}: {e}")
         for m, r in zip(models, readers):
             check_static(ctx, m, r)
         base_dicts = [snapshot.snap_reader(r) for r in readers]
